@@ -13,6 +13,8 @@ All weights, BatchNorm statistics, mask parameters and the input are symbolic; t
 import torch
 import torch.nn as nn
 import torch.nn.functional as F
+from torch.fx.passes.shape_prop import ShapeProp
+from plinio.cost import ops, params
 from plinio.methods.pit.pit import PIT
 from plinio.methods.pit.nn.module import PITModule
 from plinio.methods.pit.nn.conv1d import PITConv1d
@@ -314,6 +316,30 @@ def h_search_export(H, net):
     H.observe('cost', cost)
     H.ensure('cost:discrete-params-cost-is-the-parameter-count-of-the-exported-network', H.eq(cost, n_params))
     H.ensure('cost:reading-it-again-gives-the-same-value', H.eq(H.scalar(model.cost), cost))
+    # C04, operations metric: the discrete cost under the `ops` specification is the operation count of the exported network, computed from scratch
+    # on its own layers and the output shapes it really produces (ShapeProp on the exported network); C18: switching the specification and back
+    model.cost_specification = ops
+    c_ops = H.scalar(model.cost)
+    ShapeProp(exported).propagate(x)
+    mods = dict(exported.named_modules())
+    n_ops = 0
+    for nd in exported.graph.nodes:
+        if nd.op != 'call_module' or str(nd.target) not in summ:
+            continue
+        m = mods[str(nd.target)]
+        oshape = nd.meta['tensor_meta'].shape
+        if H.type_name(m) == 'Linear':
+            n_ops = n_ops + m.out_features * (m.in_features + (1 if m.bias is not None else 0))
+        elif H.type_name(m) in ('Conv1d', 'Conv2d'):
+            per_out = m.weight[0].numel() + (1 if m.bias is not None else 0)        # (in_channels / groups) x kernel taps (+ bias)
+            n_out = 1
+            for d in oshape[1:]:
+                n_out = n_out * d
+            n_ops = n_ops + n_out * per_out
+    H.observe('ops', c_ops)
+    H.ensure('[C04] cost:discrete-ops-cost-is-the-operation-count-of-the-exported-network', H.eq(c_ops, n_ops))
+    model.cost_specification = params
+    H.ensure('[C18] cost:switching-the-specification-and-back-restores-the-cost', H.eq(H.scalar(model.cost), cost))
     # C18: exporting is an observer of the NAS model
     H.ensure('export:model-output-unchanged-by-export', H.eq(model(x), y_nas))
 
